@@ -557,10 +557,20 @@ class _Frame:
             n = visits.get(key, 0)
             if kind == 'join' and self._is_loop_head(node):
                 if n > self.en.loop_bound:
-                    self.finish(events, 'cut', cut='loop bound')
-                    return
-                visits = dict(visits)
-                visits[key] = n + 1
+                    # the bound is reached: the loop may still *end* here.  When its condition
+                    # is a single atom the path goes on through the false edge only (like a
+                    # ``for`` loop, whose 'done' edge is always followed); otherwise it is cut
+                    exits = getattr(self.cfg, 'loop_exits', {}).get(node.id) or set()
+                    tests = getattr(self.cfg, 'loop_tests', {}).get(node.id) or set()
+                    if len(tests) != 1 or not exits:
+                        self.finish(events, 'cut', cut='loop bound')
+                        return
+                    visits = dict(visits)
+                    for (tid, lab_) in exits:
+                        visits['$exit:%d' % tid] = lab_
+                else:
+                    visits = dict(visits)
+                    visits[key] = n + 1
             elif kind == 'iter':
                 visits = dict(visits)
                 visits[key] = n + 1
@@ -628,10 +638,13 @@ class _Frame:
                 if isinstance(node.ast, ast.Name) and env.get(node.ast.id) is not None:
                     lkey = '$local:' + node.ast.id
                 self.exc_edges(node, env, events2, visits, raised, hcls)
+                exit_lab = visits.get('$exit:%d' % node.id)
                 for (succ, lab) in node.succ:
                     if lab not in ('T', 'F'):
                         continue
                     want = (lab == 'T')
+                    if exit_lab is not None and lab != exit_lab:
+                        continue        # loop bound reached: only the way out is followed
                     # a local that was tested before keeps the truth value it had then,
                     # whatever happened since to the state its defining expression reads
                     known = (env.get(FACTS) or {}).get(lkey) if lkey else None
@@ -1000,8 +1013,13 @@ class _Frame:
 
     def do_stmt(self, node, env, events, visits, pending, hcls):
         st = node.ast
+        if isinstance(st, ast.Break):
+            ev2 = list(events)
+            ev2.append(Event('brk', node=node, func=self.fi, depth=self.depth, ctx=self.ctx))
+            self.follow_normal(node, env, ev2, visits, pending, hcls)
+            return
         if isinstance(st, (ast.Pass, ast.Import, ast.ImportFrom, ast.Global, ast.Nonlocal,
-                           ast.Break, ast.Continue)):
+                           ast.Continue)):
             self.follow_normal(node, env, events, visits, pending, hcls)
             return
         if isinstance(st, (ast.FunctionDef, ast.AsyncFunctionDef, ast.ClassDef)):
